@@ -1325,6 +1325,13 @@ func main() {
 	writeIfChanged(filepath.Join(*out, "GenCkSites.v"), w.Bytes())
 	fmt.Printf("go2v: GenCkSites.v %d pooled-checksum sites\n", nck)
 
+	// GenRelaySites.v (C09): relayItems.Get / relayTimer.Stop / Relayer.pending / decrementPending sites (relaysites.go)
+	w.Reset()
+	fmt.Fprintf(&w, header, *repo)
+	nrs := root.relaySites(&w)
+	writeIfChanged(filepath.Join(*out, "GenRelaySites.v"), w.Bytes())
+	fmt.Printf("go2v: GenRelaySites.v %d Get sites, %d Stop sites, %d pending uses, %d decrementPending calls\n", nrs["get"], nrs["stop"], nrs["pending"], nrs["calls"])
+
 	// GenWaitSites.v (C05): blocking statements of the outbound call path (waitsites.go)
 	w.Reset()
 	fmt.Fprintf(&w, header, *repo)
